@@ -4,6 +4,8 @@ import (
 	"flag"
 	"fmt"
 	"math/rand"
+	"os"
+	"path/filepath"
 	"runtime"
 	"strings"
 	"sync"
@@ -235,6 +237,25 @@ func runC20(c *core.Ctx) {
 			}
 		}
 	}
+	// (k) the default error policy (ExitOnError) is the library's own: what the program did to the standard flag
+	// package's command line does not leak into it
+	for _, pr := range pool {
+		if pr.solo != "REJECT" || pr.exit != 0 {
+			continue
+		}
+		flag.CommandLine.Init("prog", flag.ContinueOnError)
+		app := mkApp(pr)
+		app.DefaultPolicy = true
+		got := drive.OutcomeKey(pr.p, drive.Run(app, pr.argv))
+		flag.CommandLine.Init(os.Args[0], flag.ExitOnError)
+		c.Eval()
+		if !strings.HasPrefix(got, "EXIT 2") {
+			c.Violation("an application that does not set ErrorHandling must exit with status 2 on a usage error, whatever the flag package's own command line is set to", map[string]interface{}{"spec": pr.p.Spec, "argv": pr.argv, "outcome": got}, nil)
+			return
+		}
+		c.Inc("default_policy_is_exit_on_error")
+		break
+	}
 	// (e) nested and cooperating applications: an Action that builds and runs another application, and two applications
 	// run concurrently whose Actions meet over an unbuffered channel, must both complete (no library-wide lock is held
 	// while user code runs)
@@ -342,6 +363,25 @@ func runC20(c *core.Ctx) {
 			return
 		}
 		errBuf, outBuf = drive.CaptureShared()
+	}
+	{
+		// an application declared without a name stays nameless in what it prints: the name of the running binary (a
+		// property of the process, not of the application) does not appear
+		nameless := drive.Single(&Prog{})
+		nameless.Shared = true
+		nameless.Root.Aliases = []string{""}
+		errBuf, _ = drive.CaptureShared()
+		done := make(chan struct{})
+		go func() { defer close(done); drive.Run(nameless, []string{"--not-declared"}) }()
+		if !waitOr("a nameless application", done) {
+			return
+		}
+		c.Eval()
+		if self := filepath.Base(os.Args[0]); !strings.Contains(errBuf.String(), "Usage:") || strings.Contains(errBuf.String(), self) {
+			c.Violation("the usage message of an application declared without a name mentions the running binary ("+self+") or is missing", map[string]interface{}{"stderr": truncateStr(errBuf.String(), 300)}, nil)
+			return
+		}
+		c.Inc("nameless_application_stays_nameless")
 	}
 	drive.Quiet()
 	for k := 0; k < 6 && len(accepted) >= 2; k++ {
